@@ -48,6 +48,11 @@ func runChaos(r *ev.Run, tag string, n int, mk func(i int) chain.ChaosCfg, snaps
 		c := chain.NewChaos(rr, mk(i))
 		c.Generate()
 		cr := &chaosRun{Idx: i, Chaos: c, Script: c.B.Script(snapshot)}
+		if r.ID == "C20" && i%2 == 1 {
+			// half of the application-pool histories also serve RPC reads of application records at a few past heights
+			// between the blocks (a node answers such queries all the time; they go through historical contexts)
+			cr.Script, _ = perturb(rng.New(r.Seed, tag, i, "historical-reads"), cr.Script, c.B.Gen, "app-query-history-repeated", 3)
+		}
 		cr.Res, cr.Err = chain.RunChild(chain.SelfBin(), cr.Script, nil, childTimeout)
 		mu.Lock()
 		runs[i] = cr
